@@ -19,7 +19,8 @@ RULE = ("(v1) conjunctive-normal-form formulas: 1..3 argument groups x 1..3 comm
         "as configuration setting); all formulas with <= 2 literals over 4 tags x 12 decorations are enumerated, larger ones "
         "are random. Oracle: AND of groups, OR inside a group, prefix negates, over ALL 128 subsets of a 7-tag universe that "
         "contains tags with 'or' / 'and' / 'not' as substrings. (v2) the C07 trees and renderings over this universe under "
-        "auto_detect (explicit, current, or --tags options of a Configuration) must have their Boolean-formula meaning. (mixed) a v2 text (>= 1 and/or/not word) in which >= 1 "
+        "auto_detect (explicit, current, or --tags options of a Configuration) must have their Boolean-formula meaning. "
+        "(mixed) a v2 text (>= 1 and/or/not word) in which >= 1 "
         "operand carries the v1 negation prefix must raise TagExpressionError under auto_detect. Non-trivial = >= 2 groups "
         "or a negation (v1), >= 2 operators or a wildcard (v2), every mixed text.")
 ASSUMPTIONS = [
